@@ -112,7 +112,13 @@ BASE_POOL = {
     "GeneratorExit": lambda: GeneratorExit(),
     "CustomBase": lambda: CustomBase("base"),
 }
+async def _unawaited():
+    return None
+
+
 RETURN_POOL = {
+    # a coroutine object handed back for the caller to await (a thread payload acting as a factory)
+    "coroutine": lambda: _unawaited(),
     "0": lambda: 0, "0.0": lambda: 0.0, "False": lambda: False, "''": lambda: "", "[]": lambda: [], "()": lambda: (), "{}": lambda: {},
     "b''": lambda: b"", "'x'": lambda: "x", "1": lambda: 1, "object": lambda: object(), "True": lambda: True, "[0]": lambda: [0],
 }
@@ -518,6 +524,14 @@ class World:
                 async def run(self):
                     return await run()
         Svc.__name__ = Svc.__qualname__ = "Svc_%d" % spec["id"]
+        if spec.get("value_semantics") == "equal":
+            # distinct live service instances that compare and hash equal (a dataclass-like service)
+            Svc._verif_equal = True
+            Svc.__eq__ = lambda self, other: getattr(other, "_verif_equal", False)
+            Svc.__hash__ = lambda self: 17
+        elif spec.get("value_semantics") == "unhashable":
+            Svc.__eq__ = lambda self, other: self is other
+            Svc.__hash__ = None
         return service(flavour=flavour)(Svc)
 
 
